@@ -165,6 +165,7 @@ type prepared struct {
 	doc     *ast.Document
 	op      *ast.OperationDefinition
 	coerced map[string]interface{}
+	raw     *rawReq // the request as written, for the model's own argument resolution (raw.go)
 	varsOk  bool
 	ref     *big.Int
 	refErr  error
@@ -186,6 +187,7 @@ func (h *harness) prepareFor(c Case, schema *graphql.Schema) (p *prepared, skip 
 	p.op = chooseOperation(doc, c.OpName)
 	if p.op != nil {
 		p.coerced, p.varsOk = expectCoercedVariables(p.op, goVars(c.Vars))
+		p.raw = rawOf(p.op, c.Vars)
 	}
 	if p.varsOk {
 		p.ref, p.stats, p.refErr = refCostGo(doc, p.op, p.coerced, c.Default)
@@ -238,7 +240,7 @@ func (h *harness) runOneWith(c Case, p *prepared, verbose bool, reply string) *f
 	if h.model != nil {
 		var err error
 		if reply == "" {
-			reply, err = h.model.Ask(modelRequest(p.doc, c.OpName, p.varsOk, c.Max, c.Default, p.coerced))
+			reply, err = h.model.Ask(modelRequest(p.doc, c.OpName, p.varsOk, c.Max, c.Default, p.coerced, p.raw))
 			if err != nil {
 				return &failure{"correspondence", "model driver failed: " + err.Error()}
 			}
@@ -398,7 +400,7 @@ func (h *harness) evalRequest(c Case, lim *hx.Rand, record bool) (*failure, Case
 	var replies []string
 	if h.model != nil {
 		lines := make([]string, len(limits))
-		pre, post := modelRequestParts(p.doc, c.OpName, p.varsOk, c.Default, p.coerced)
+		pre, post := modelRequestParts(p.doc, c.OpName, p.varsOk, c.Default, p.coerced, p.raw)
 		for i, max := range limits {
 			lines[i] = pre + strconv.Itoa(max) + post
 		}
@@ -756,6 +758,8 @@ func (h *harness) replayCase(c Case, verbose bool) *failure {
 		return h.wsOne(c, verbose)
 	case "history":
 		return h.historyOne(c, verbose)
+	case "args":
+		return h.argsOne(c, c.Total, verbose)
 	default:
 		p, skip := h.prepare(c)
 		if skip != "" {
@@ -824,10 +828,13 @@ func main() {
 	h.generated(run.Scale(3000, 60000))
 	h.executePath(run.Scale(250, 4000))
 	h.connections()
+	h.argResolution()
 	h.wsPath(run.Scale(60, 600))
 	h.histories(run.Scale(250, 5000))
 	for _, w := range h.apis {
 		w.close()
 	}
+	run.CountN("model-input:connection field sent as raw spelling (Lean coerces variables and arguments)", rawConnSent)
+	run.CountN("model-input:connection field sent as the harness's own reading (outside the Lean vocabulary)", rawConnFallback)
 	run.Finish(h.model)
 }
